@@ -80,8 +80,8 @@ def gen_csv_case(rng):
 
 
 def gen_scot_case(rng):
-    k = rng.randint(1, 6)
-    names = rng.sample(NAMES, k)
+    k = rng.randint(1, 6) if rng.random() < 0.8 else rng.randint(10, 13)   # two-digit candidate numbers too
+    names = rng.sample(NAMES, k) if k <= len(NAMES) else [f"Cand{i}" for i in range(k)]
     parties = [rng.choice(["Red (R)", "Blue, B", "Ind"]) for _ in names]
     seats = rng.randint(1, k)
     ballots = []
